@@ -454,10 +454,25 @@ func rangesOverAll(idx ssa.Value, container ssa.Value, n int64) bool {
 	if nil != add {
 		tested = add
 	}
-	for _, ref := range *tested.Referrers() {
+	refs := append([]ssa.Instruction(nil), *tested.Referrers()...)
+	if nil == add {
+		/* A rotated loop (the body first, "i+1 < n" at its end, "0 < n"
+		before it) tests the stepped value. */
+		for _, e := range ph.Edges {
+			if b, ok := e.(*ssa.BinOp); ok {
+				refs = append(refs, *b.Referrers()...)
+			}
+		}
+	}
+	for _, ref := range refs {
 		cmp, ok := ref.(*ssa.BinOp)
-		if !ok || token.LSS != cmp.Op || cmp.X != tested {
+		if !ok || token.LSS != cmp.Op {
 			continue
+		}
+		if cmp.X != tested {
+			if b, isB := cmp.X.(*ssa.BinOp); !isB || nil != add || b.X != ssa.Value(ph) {
+				continue
+			}
 		}
 		if k, ok := constInt(cmp.Y); ok && k == n {
 			return true
